@@ -10,7 +10,7 @@ import props
 
 REPO = os.environ.get('VERIF_REPO', '/repo')
 CLANG = 'clang++-14'
-IRFLAGS = ['-O1', '-fgnuc-version=10.0.0', '-fno-vectorize', '-fno-slp-vectorize', '-fno-unroll-loops', '-fno-rtti', '-D_GLIBCXX_TSAN=1', '-DEVENTPP_VERIF',
+IRFLAGS = ['-O1', '-fno-vectorize', '-fno-slp-vectorize', '-fno-unroll-loops', '-fno-rtti', '-D_GLIBCXX_TSAN=1', '-DEVENTPP_VERIF',
            '-I' + REPO + '/include', '-S', '-emit-llvm', '-Wno-everything']
 
 
@@ -31,7 +31,7 @@ def lower(run, work):
     t0 = time.time()
     src = os.path.join(VERIF, 'harness', run.harness)
     ll = os.path.join(work, run.name + '.ll')
-    flags = ['-std=' + run.std] + IRFLAGS + (['-fexceptions'] if run.exc else ['-fno-exceptions']) + defs(run.defines)
+    flags = ['-std=' + run.std] + (['-fgnuc-version=' + run.gnuc] if run.gnuc else []) + IRFLAGS + (['-fexceptions'] if run.exc else ['-fno-exceptions']) + defs(run.defines)
     flags = [f for f in flags if not (run.opt and f == '-O1')] + (['-' + run.opt] if run.opt else [])
     if run.shared_points: flags.append('-gline-tables-only')   # line tables tell library code from harness bookkeeping
     r = sh([CLANG] + flags + [src, '-o', ll])
@@ -64,7 +64,7 @@ def start_native_builds(run, work, variants):
     src = os.path.join(VERIF, 'harness', run.harness)
     for v in variants:
         out = os.path.join(work, '%s.%s.bin' % (run.name, v))
-        cmd = NATIVE_VARIANTS[v] + (['-fgnuc-version=10.0.0', '-D_GLIBCXX_TSAN=1'] if v.startswith('clang') else []) + ['-std=' + run.std, '-w', '-I' + REPO + '/include', '-DEVENTPP_VERIF', '-DVF_NATIVE'] + defs(run.defines) + \
+        cmd = NATIVE_VARIANTS[v] + ((['-fgnuc-version=' + run.gnuc] if run.gnuc else []) + ['-D_GLIBCXX_TSAN=1'] if v.startswith('clang') else []) + ['-std=' + run.std, '-w', '-I' + REPO + '/include', '-DEVENTPP_VERIF', '-DVF_NATIVE'] + defs(run.defines) + \
             (['-DVF_NO_NEW_REPLACEMENT'] if run.own_new else []) + [src, os.path.join(VERIF, 'runtime', 'vf_native.cpp'), '-o', out, '-lpthread']
         procs[v] = (subprocess.Popen(cmd, stdout=subprocess.PIPE, stderr=subprocess.PIPE, text=True), out, cmd)
     return procs
